@@ -315,35 +315,37 @@ Proof. split; vm_compute; reflexivity. Qed.
 (* exit 0 => exactly one document is delivered (written to the file, or dumped to STDOUT when
    the document came from STDIN) and it is the library's post-state of the loaded document
    (for an empty file: of the freshly built one): --saveto applied first, then the change the
-   options select (written as JSON - flow-style root or a .json name - it is that state's JSON view); every other ending - a failed --check (20), an unmatched path that must
+   options select - precisely, what the text written for that state loads back to: [yamlview] of it for
+   YAML (the state itself when ruamel's emitter is faithful, CliSpec.dump_faithful), its JSON view for
+   JSON (flow-style root or a .json name); every other ending - a failed --check (20), an unmatched path that must
    exist (1), a library error, an unreadable file - delivers nothing *)
 Theorem C16_set_file :
-  forall built saveto change flow dump_fail jsonview change_verb a tty valfile_err load gather,
-    (r_status (cli_set_main built saveto change flow dump_fail jsonview change_verb a tty valfile_err load gather) = Exit 0 /\
+  forall built saveto change flow dump_fail jsonview yamlview change_verb a tty valfile_err load gather,
+    (r_status (cli_set_main built saveto change flow dump_fail jsonview yamlview change_verb a tty valfile_err load gather) = Exit 0 /\
      exists d0 j,
        (get_yaml_data load = L1Ok (Some d0) \/ (get_yaml_data load = L1Ok None /\ built = LOk d0)) /\
-       delivered (cli_set_main built saveto change flow dump_fail jsonview change_verb a tty valfile_err load gather) =
-         [(j, [set_written a flow jsonview (set_post a saveto change d0)])]) \/
-    (r_status (cli_set_main built saveto change flow dump_fail jsonview change_verb a tty valfile_err load gather) <> Exit 0 /\
-     delivered (cli_set_main built saveto change flow dump_fail jsonview change_verb a tty valfile_err load gather) = []).
+       delivered (cli_set_main built saveto change flow dump_fail jsonview yamlview change_verb a tty valfile_err load gather) =
+         [(j, [set_written a flow yamlview jsonview (set_post a saveto change d0)])]) \/
+    (r_status (cli_set_main built saveto change flow dump_fail jsonview yamlview change_verb a tty valfile_err load gather) <> Exit 0 /\
+     delivered (cli_set_main built saveto change flow dump_fail jsonview yamlview change_verb a tty valfile_err load gather) = []).
 Proof. exact set_file. Qed.
 Print Assumptions C16_set_file.
 
 Theorem C16_set_check_stops :
-  forall saveto change flow dump_fail jsonview change_verb a n file d0 ns s h,
+  forall saveto change flow dump_fail jsonview yamlview change_verb a n file d0 ns s h,
     sa_check a = true -> set_check a ns = CheckStop s h ->
-    set_apply saveto change flow dump_fail jsonview change_verb a n file d0 ns = mkrun s (hints h) [].
+    set_apply saveto change flow dump_fail jsonview yamlview change_verb a n file d0 ns = mkrun s (hints h) [].
 Proof. exact set_check_stops. Qed.
 Print Assumptions C16_set_check_stops.
 
 (* the YAML dumper refuses the changed document (a tagged non-string scalar): the run ends with that
    exception, delivers nothing, and - after the fix - a file target is given its original bytes back *)
 Theorem C16_set_dump_failure :
-  forall a n file fl c jd d,
+  forall a n file fl c yd jd d,
     negb fl && negb (sa_is_json_ext a) = true ->
-    r_status (set_write a n file fl (Some c) jd d) = Uncaught (UCrash c) /\
-    delivered (set_write a n file fl (Some c) jd d) = [] /\
-    (is_dash file = false -> r_fx (set_write a n file fl (Some c) jd d) = [ERestore]).
+    r_status (set_write a n file fl (Some c) yd jd d) = Uncaught (UCrash c) /\
+    delivered (set_write a n file fl (Some c) yd jd d) = [] /\
+    (is_dash file = false -> r_fx (set_write a n file fl (Some c) yd jd d) = [ERestore]).
 Proof. exact set_write_dump_fails. Qed.
 Print Assumptions C16_set_dump_failure.
 
@@ -351,25 +353,41 @@ Definition ex_args_set (check saveto mustexist : bool) :=
   mkset "doc.yaml" false (mknoise false false false) (Some "new") false false false false None false false ""
         false check saveto false mustexist true false false false false false 62 false.
 Example C16_set_example :
-  cli_set_main (LRaise UYpe) (fun d => LOk (d + 100)) (fun d => ChOk (d + 1)) (fun _ => false) (fun _ => None) (fun d => d) (fun _ => 0)
+  cli_set_main (LRaise UYpe) (fun d => LOk (d + 100)) (fun d => ChOk (d + 1)) (fun _ => false) (fun _ => None) (fun d => d) (fun d => d) (fun _ => 0)
     (ex_args_set true true false) true None (R1Doc (Some 5)) (LOk [mksn false (LOk false) true]) =
   mkrun (Exit 0) [] [EBackup; EWrite false [106]].
 Proof. vm_compute. reflexivity. Qed.
+(* "a file that reloads to the document the set/delete model predicts": true of a YAML write whenever
+   ruamel's emitter is faithful on the post-state ... *)
+Theorem C16_set_reloads_partial :
+  forall a flow yamlview jsonview d,
+    dump_faithful yamlview -> negb (flow d) && negb (sa_is_json_ext a) = true ->
+    set_written a flow yamlview jsonview d = d.
+Proof. exact set_written_faithful. Qed.
+Print Assumptions C16_set_reloads_partial.
+(* ... and false otherwise.  Real witness (known finding ruamel_block_scalar_indent): `yaml-set -g a
+   -a '  padded' -F literal` writes `a: |4-` + `    padded`, which loads back as "padded" *)
+Theorem C16_set_reloads_refuted :
+  exists a flow yamlview jsonview d, set_written a flow yamlview jsonview d <> d.
+Proof.
+  exists (ex_args_set false false false), (fun _ => false), S, (fun d => d), 0. vm_compute. discriminate.
+Qed.
+
 Example C16_set_example_check_fails :
-  cli_set_main (LRaise UYpe) (fun d => LOk (d + 100)) (fun d => ChOk (d + 1)) (fun _ => false) (fun _ => None) (fun d => d) (fun _ => 0)
+  cli_set_main (LRaise UYpe) (fun d => LOk (d + 100)) (fun d => ChOk (d + 1)) (fun _ => false) (fun _ => None) (fun d => d) (fun d => d) (fun _ => 0)
     (ex_args_set true false false) true None (R1Doc (Some 5)) (LOk [mksn false (LOk false) false]) =
   mkrun (Exit 20) [] [].
 Proof. vm_compute. reflexivity. Qed.
 Example C16_set_example_dump_fails :
   (* yaml-set -g a -T '!x' on an integer: the change succeeds, the dumper raises TypeError *)
-  cli_set_main (LRaise UYpe) (fun d => LOk d) (fun d => ChOk (d + 1)) (fun _ => false) (fun _ => Some "TypeError") (fun d => d) (fun _ => 0)
+  cli_set_main (LRaise UYpe) (fun d => LOk d) (fun d => ChOk (d + 1)) (fun _ => false) (fun _ => Some "TypeError") (fun d => d) (fun d => d) (fun _ => 0)
     (mkset "doc.yaml" false (mknoise false false false) None false false false false None false false ""
            true false false false false true false false false false false 62 false)
     true None (R1Doc (Some 5)) (LOk [mksn false (LOk false) true]) =
   mkrun (Uncaught (UCrash "TypeError")) [] [ERestore].
 Proof. vm_compute. reflexivity. Qed.
 Example C16_set_example_unmatched :
-  cli_set_main (LRaise UYpe) (fun d => LOk d) (fun d => ChOk (d + 1)) (fun _ => false) (fun _ => None) (fun d => d) (fun _ => 0)
+  cli_set_main (LRaise UYpe) (fun d => LOk d) (fun d => ChOk (d + 1)) (fun _ => false) (fun _ => None) (fun d => d) (fun d => d) (fun _ => 0)
     (ex_args_set false false true) true None (R1Doc (Some 5)) (LRaise UYpe) =
   mkrun (Exit 1) [] [].
 Proof. vm_compute. reflexivity. Qed.
